@@ -153,7 +153,50 @@ def metadata_blocks(fs):
     return {b for b in out if 0 <= b < fs.blocks_count}
 
 
+def full_all_case(src, idx, seed):
+    """-Qa / -ra of a filesystem without a free block, every block non-zero: the qcow2 file is larger than the filesystem,
+    its last L2 tables lie behind the filesystem size and the last block of the filesystem is part of the image"""
+    r = e2v.rng(seed, "c19full", idx)
+    T = lambda p: os.path.join(src, p)
+    env = e2v.tool_env(src)
+    bs, size_m = [(1024, 40), (1024, 20), (4096, 48), (2048, 36)][idx % 4]
+    img = os.path.join(WORK, "full_%d.img" % idx)
+    fill = os.path.join(WORK, "full_%d.dat" % idx)
+    outs = {k: os.path.join(WORK, "full_%d.%s" % (idx, k)) for k in ("qcow", "rawall", "raw2")}
+    for p_ in [img] + list(outs.values()):
+        if os.path.exists(p_):
+            os.unlink(p_)
+    recipe = {"kind": "full filesystem, -Qa", "block_size": bs, "size": "%dM" % size_m, "case_index": 100000 + idx}
+    e2v.sh([T("misc/mke2fs"), "-q", "-F", "-t", "ext2", "-b", str(bs), "-O", "^resize_inode", "-N", "16", "-m", "0", img, "%dM" % size_m], env=env, timeout=120)
+    with open(fill, "wb") as f:
+        f.write(bytes(1 + (b % 255) for b in r.randbytes(1 << 16)) * (size_m * 18))
+    e2v.sh([T("debugfs/debugfs"), "-w", "-R", "write %s f" % fill, img], env=env, timeout=300)
+    e2v.sh([T("e2fsck/e2fsck"), "-fy", img], env=env, timeout=300)
+    problems = []
+    fs = Fs(img)
+    if sum(g["free_blocks"] for g in fs.groups):
+        problems.append("generator: the filesystem is not full")
+    for label, cmd in (("-Qa", [T("misc/e2image"), "-Qa", img, outs["qcow"]]), ("-ra", [T("misc/e2image"), "-ra", img, outs["rawall"]]),
+                       ("-r from qcow2", [T("misc/e2image"), "-r", outs["qcow"], outs["raw2"]])):
+        rc, out = e2v.sh(cmd, env=env, timeout=600)
+        if rc != 0:
+            problems.append("e2image %s exits %d: %s" % (label, rc, out[-200:]))
+    stat = {}
+    if not problems:
+        a, b, s0 = open(outs["rawall"], "rb").read(), open(outs["raw2"], "rb").read(), open(img, "rb").read()
+        stat["qcow_bytes_over_fs"] = os.path.getsize(outs["qcow"]) - len(s0)
+        if b != a:
+            d_ = [i for i in range(0, max(len(a), len(b)), bs) if a[i:i + bs] != b[i:i + bs]]
+            problems.append("raw image made from the -Qa image differs from the -ra image in %d blocks (sizes %d / %d), first blocks %s" % (len(d_), len(b), len(a), [x // bs for x in d_[:4]]))
+    for p_ in [img, fill] + list(outs.values()):
+        if os.path.exists(p_):
+            os.unlink(p_)
+    return recipe, problems, stat
+
+
 def one_case(src, mexe, idx, seed, tier):
+    if idx >= 100000:
+        return full_all_case(src, idx - 100000, seed)
     r = e2v.rng(seed, "c19", idx)
     name, opts, size = CONFIGS[idx % len(CONFIGS)]
     if name == "ext3_wide_1k":
@@ -293,7 +336,8 @@ def run(res, replay=None):
     res.cov["partial"] = ["proved: the index arithmetic of the qcow2 map and refcounts and the disjointness of sequentially assigned data clusters; the writer's table/refcount-block allocation and e2image's own block discovery are validated per image by the independent decoder, not modelled",
                           "-I (install image), -b/-B (superblock options) and bigalloc/inline_data sources are outside the campaign"]
     n = 7 if tier == "quick" else 245
-    idxs = [json.load(open(replay))["recipe"]["case_index"]] if replay else list(range(n))
+    nfull = 2 if tier == "quick" else 12
+    idxs = [json.load(open(replay))["recipe"]["case_index"]] if replay else list(range(n)) + [100000 + i for i in range(nfull)]
     with concurrent.futures.ThreadPoolExecutor(6) as ex:
         outs = list(ex.map(lambda i: one_case(src, mexe, i, seed, tier), idxs))
     bad = []
